@@ -259,21 +259,22 @@ var c09Probes = []string{
 }
 
 type hornResult struct {
-	Rules          int               `json:"grammar_rules"`
-	Filtered       []string          `json:"filtered_rules_from_default_context"`
-	Targets        []string          `json:"target_rules"`
-	MissingTargets []string          `json:"target_rules_missing_from_grammar,omitempty"`
-	Clauses        int               `json:"horn_clauses"`
-	Verdict        string            `json:"z3_fixedpoint_verdict"`
-	SolverS        float64           `json:"solver_time_s"`
-	GraphMismatch  []string          `json:"grammar_vs_parser_call_graph_mismatches,omitempty"`
-	ParserRules    int               `json:"parser_rule_methods"`
-	Probes         int               `json:"probe_queries"`
-	ProbeAccepted  []string          `json:"probe_queries_accepted_with_forbidden_construct,omitempty"`
-	Notes          []string          `json:"notes,omitempty"`
-	Unsupported    []string          `json:"rules_rejected_by_every_visitor_not_counted"`
-	Query          string            `json:"query"`
-	Sample         map[string]string `json:"sample_rule_encoding"`
+	Rules           int               `json:"grammar_rules"`
+	Filtered        []string          `json:"filtered_rules_from_default_context"`
+	Targets         []string          `json:"target_rules"`
+	MissingTargets  []string          `json:"target_rules_missing_from_grammar,omitempty"`
+	Clauses         int               `json:"horn_clauses"`
+	Verdict         string            `json:"z3_fixedpoint_verdict"`
+	SolverS         float64           `json:"solver_time_s"`
+	GraphMismatch   []string          `json:"grammar_vs_parser_call_graph_mismatches,omitempty"`
+	ParserRules     int               `json:"parser_rule_methods"`
+	Probes          int               `json:"probe_queries"`
+	GeneratedProbes int               `json:"probe_queries_derived_from_the_grammar"`
+	ProbeAccepted   []string          `json:"probe_queries_accepted_with_forbidden_construct,omitempty"`
+	Notes           []string          `json:"notes,omitempty"`
+	Unsupported     []string          `json:"rules_rejected_by_every_visitor_not_counted"`
+	Query           string            `json:"query"`
+	Sample          map[string]string `json:"sample_rule_encoding"`
 }
 
 // runHornC09 performs H2. It returns the result, the violations (with replay files) and
@@ -514,8 +515,23 @@ func runHornC09(pg *symgo.Program) (*hornResult, []string, bool) {
 
 	// (4) probes through the natively linked front end (confirmation of alarms)
 	var violations []string
-	res.Probes = len(c09Probes)
-	for i, q := range c09Probes {
+	// hand-written probes, nested-literal positions, and one sentence per (holder rule,
+	// forbidden rule) pair derived from the grammar
+	probes := append([]string{}, c09Probes...)
+	probes = append(probes,
+		"match (n) where n.objectid in [$objectid] return n",
+		"unwind [$first, $second] as x return x",
+		"match (n) return {name: $name} as m",
+		"match (n) where n.name = head([$name]) return n",
+		"match (n) where n.v in [[1, $deep]] return n",
+		"match (n {name: $p}) return n",
+		"match (n) return n skip $s limit $l",
+	)
+	generated := contextSentences(c09TargetRules)
+	res.GeneratedProbes = len(generated)
+	probes = append(probes, generated...)
+	res.Probes = len(probes)
+	for i, q := range probes {
 		if why := probeAccepted(q); why != "" {
 			res.ProbeAccepted = append(res.ProbeAccepted, q+"  ["+why+"]")
 			file := filepath.Join(verifRoot, "replays", fmt.Sprintf("C09-probe-%d.json", i))
@@ -535,6 +551,11 @@ func probeAccepted(q string) (why string) {
 		if r := recover(); r != nil {
 			why = "" // a crash is not an acceptance (C08 territory)
 		}
+	}()
+	// an earlier parse of the same text under an unfiltered context must not matter
+	func() {
+		defer func() { recover() }()
+		frontend.ParseCypher(frontend.NewContext(), q)
 	}()
 	model, err := frontend.ParseCypher(frontend.DefaultCypherContext(), q)
 	if err != nil || model == nil {
